@@ -159,12 +159,21 @@ def route_lines(app):
                 withbody = method in ('PUT', 'POST')
                 if withbody:
                     body = b'{}'
-                st, h, b = app.call(method, concrete(route, method), hdr(hv, 'admin+service', withbody), body)
-                lines.append({'kind': 'route', 'route': route, 'method': method, 'vkind': vkind,
-                              'v': v, 'status': st, 'hver': _ver_of(h),
-                              'vary': 'openstack-api-version' in h.get('vary', '').lower(),
-                              'cache': 'last-modified' in h and h.get('cache-control') == 'no-cache',
-                              'anycache': 'last-modified' in h or 'cache-control' in h})
+                shapes = [('json', hdr(hv, 'admin+service', withbody), body)]
+                if withbody and vkind != 'invalid' and route not in extra_routes:
+                    # whether a route or method exists at a version does not depend on what the
+                    # request carries: the same with another media type, and with nothing at all
+                    h2 = hdr(hv, 'admin+service', False)
+                    h2['content-type'] = 'text/plain'
+                    shapes.append(('text', h2, b'x'))
+                    shapes.append(('empty', hdr(hv, 'admin+service', False), None))
+                for shape, hh, bb in shapes:
+                    st, h, b = app.call(method, concrete(route, method), hh, bb)
+                    lines.append({'kind': 'route', 'route': route, 'method': method, 'vkind': vkind, 'shape': shape,
+                                  'v': v, 'status': st, 'hver': _ver_of(h),
+                                  'vary': 'openstack-api-version' in h.get('vary', '').lower(),
+                                  'cache': 'last-modified' in h and h.get('cache-control') == 'no-cache',
+                                  'anycache': 'last-modified' in h or 'cache-control' in h})
     app.restore('surf')
     return lines
 
